@@ -140,13 +140,14 @@ class BlockInterleavedLinearOperator(BlockLinearOperator):
         inv_quad_res, logdet_res = self.base_linear_op.inv_quad_logdet(
             inv_quad_rhs, logdet, reduce_inv_quad=reduce_inv_quad
         )
-        if inv_quad_res is not None and inv_quad_res.numel():
+        # (only a term that was asked for has the per-block shape; the other one is a placeholder)
+        if inv_quad_rhs is not None and inv_quad_res is not None and inv_quad_res.numel():
             if reduce_inv_quad:
                 inv_quad_res = inv_quad_res.view(*self.base_linear_op.batch_shape)
                 inv_quad_res = inv_quad_res.sum(-1)
             else:
                 inv_quad_res = inv_quad_res.view(*self.base_linear_op.batch_shape, inv_quad_res.size(-1))
                 inv_quad_res = inv_quad_res.sum(-2)
-        if logdet_res is not None and logdet_res.numel():
+        if logdet and logdet_res is not None and logdet_res.numel():
             logdet_res = logdet_res.view(*logdet_res.shape).sum(-1)
         return inv_quad_res, logdet_res
